@@ -1,9 +1,111 @@
 import Driver.Proto
+import PolyVerif.Model.Par
+import PolyVerif.Gen.Partition
 
+/-
+  C10 driver.  Request lines (see go/harness/c10.go):
+
+    c10.visits  NAME n size                       → sorted multiset of indices the model's workers hand to the callback | panic
+    c10.scan    NAME n size d  v(n*d hex)         → "i:hex,..,hex" per delivered (index, value), sorted by index         | panic
+    c10.prims   TOPO n size k  idx(k ints)        → "i:a,b,c" per delivered (index, primitive corner ids)              | panic
+    c10.modify  NAME n size d  v(n*d hex)         → output array (n*d hex) of  f(i, v) = 2*v + i                        | panic
+    c10.holds.visits_exact n k i1..ik             → the observed index multiset is exactly {0..n-1}, each once
+    c10.holds.visits_exact_emptystrip 0 k i1..ik  → same predicate, for the empty line strip (0 primitives)
+    c10.holds.same_output  k a1..ak b1..bk        → the two token lists are identical
+-/
 namespace Driver.C10
+open PolyVerif.Par PolyVerif.Gen.Partition
 
-/-- one request -> one answer line; `none` = unknown op / malformed -/
-def handle (_op : String) (_args : List String) : Option String := none
+def findSpec (name : String) : Option PartSpec := (specs.find? (fun p => p.1 == name)).map (·.2)
+
+def panicsOf (name : String) (size : Int) : Bool :=
+  -- guards as extracted (identical for all methods; proved in Props/C10 `guards`)
+  match name.splitOn "/" with
+  | "ScanPrimitivesParallelWithPoolSize" :: _ => decide (ScanPrimitivesParallelWithPoolSize.panics size)
+  | ["ScanFloat3AttributeParallelWithPoolSize"] => decide (ScanFloat3AttributeParallelWithPoolSize.panics size)
+  | ["ScanFloat2AttributeParallelWithPoolSize"] => decide (ScanFloat2AttributeParallelWithPoolSize.panics size)
+  | ["ScanFloat1AttributeParallelWithPoolSize"] => decide (ScanFloat1AttributeParallelWithPoolSize.panics size)
+  | ["ModifyFloat3AttributeParallelWithPoolSize"] => decide (ModifyFloat3AttributeParallelWithPoolSize.panics size)
+  | ["ModifyFloat2AttributeParallelWithPoolSize"] => decide (ModifyFloat2AttributeParallelWithPoolSize.panics size)
+  | ["ModifyFloat1AttributeParallelWithPoolSize"] => decide (ModifyFloat1AttributeParallelWithPoolSize.panics size)
+  | _ => true
+
+def joinOr (none : String) (l : List String) : String := if l.isEmpty then none else " ".intercalate l
+
+/-- all indices delivered by all workers (flattened, worker order) -/
+def delivered (P : PartSpec) (n size : Int) : List Int := (P.visits n size).flatten
+
+/-- pairs (callback index, read index) of all workers -/
+def deliveredPairs (P : PartSpec) (n size : Int) : List (Int × Int) :=
+  ((intRange 0 (P.workers n size)).map (fun i => (P.iters n size i).map (fun j => (P.cbIndex j, P.readIndex j)))).flatten
+
+def insertPair (x : Int × Int) : List (Int × Int) → List (Int × Int)
+  | [] => [x]
+  | y :: ys => if x.1 < y.1 ∨ (x.1 = y.1 ∧ x.2 ≤ y.2) then x :: y :: ys else y :: insertPair x ys
+def sortPairs (l : List (Int × Int)) : List (Int × Int) := l.foldr insertPair []
+
+def chunk (d : Nat) (xs : Array String) (k : Int) : Option String :=
+  if k < 0 then none else
+  let k := k.toNat
+  if (k + 1) * d ≤ xs.size then some (",".intercalate ((xs.extract (k * d) ((k + 1) * d)).toList)) else none
+
+def handle (op : String) (args : List String) : Option String := do
+  match op, args with
+  | "c10.visits", [name, n, size] => do
+      let P ← findSpec name; let n ← int? n; let size ← int? size
+      if panicsOf name size then pure "panic" else
+      pure (joinOr "none" ((sortInts (delivered P n size)).map toString))
+  | "c10.scan", name :: n :: size :: d :: vals => do
+      let P ← findSpec name; let n ← int? n; let size ← int? size; let d ← nat? d
+      if panicsOf name size then pure "panic" else
+      let xs := vals.toArray
+      let toks ← (sortPairs (deliveredPairs P n size)).mapM (fun (ci, ri) => do
+        let v ← chunk d xs ri; pure (toString ci ++ ":" ++ v))
+      pure (joinOr "none" toks)
+  | "c10.prims", topo :: n :: size :: _k :: idx => do
+      let name := "ScanPrimitivesParallelWithPoolSize/" ++ topo
+      let P ← findSpec name; let n ← int? n; let size ← int? size
+      if panicsOf name size then pure "panic" else
+      let xs := idx.toArray
+      let toks ← (sortPairs (deliveredPairs P n size)).mapM (fun (ci, ri) => do
+        if ri < 0 then none else
+        let r := ri.toNat
+        let v ← match topo with
+          | "TriangleTopology" => do pure (s!"{← xs[3*r]?},{← xs[3*r+1]?},{← xs[3*r+2]?}")
+          | "LineStripTopology" => do pure (s!"{← xs[r]?},{← xs[r+1]?}")
+          | "PointTopology" => pure (toString r)   -- Point{index: i} reads v3Data[atr][i] directly
+          | _ => none
+        pure (toString ci ++ ":" ++ v))
+      pure (joinOr "none" toks)
+  | "c10.modify", name :: n :: size :: d :: vals => do
+      let P ← findSpec name; let n ← int? n; let size ← int? size; let d ← nat? d
+      let w ← P.writeIndex
+      if panicsOf name size then pure "panic" else
+      let fs ← floats? vals
+      let xs := fs.toArray
+      -- fresh zero array, then every write of every worker (worker order; any order gives the same, Props/C10 part 2)
+      let nn := n.toNat
+      let init : Array Float := Array.replicate (nn * d) 0.0
+      let writes := ((intRange 0 (P.workers n size)).map (fun i => P.iters n size i)).flatten
+      let out ← writes.foldlM (fun (acc : Array Float) j => do
+        let ci := P.cbIndex j; let ri := P.readIndex j; let wi := w j
+        if ri < 0 ∨ wi < 0 then none else
+        let r := ri.toNat; let wN := wi.toNat
+        if (r + 1) * d > xs.size ∨ (wN + 1) * d > acc.size then none else
+        pure ((List.range d).foldl (fun (a : Array Float) c => a.set! (wN * d + c) (2.0 * xs[r * d + c]! + Float.ofInt ci)) acc)) init
+      pure (joinOr "none" (out.toList.map fHex))
+  | "c10.holds.visits_exact", n :: _k :: is => do
+      let n ← nat? n; let l ← is.mapM int?
+      pure (boolStr (isRangePerm n l))
+  | "c10.holds.visits_exact_emptystrip", n :: _k :: is => do
+      let n ← nat? n
+      match is.mapM int? with
+      | some l => pure (boolStr (isRangePerm n l))
+      | none => pure "false"
+  | "c10.holds.same_output", k :: rest => do
+      let k ← nat? k
+      pure (boolStr (rest.length == 2 * k && rest.take k == rest.drop k))
+  | _, _ => none
 
 end Driver.C10
 
